@@ -55,6 +55,7 @@ class Partial(object):
         self.evaluations = 0
         self.nontrivial = set()
         self.samples = []
+        self.other_samples = []  # a few cases that are not non-trivial (used only when there is no other sample)
         self.counters = collections.Counter()
         self.failures = {}  # bucket -> dict(case=, detail=, count=)
         self.harness_errors = []
@@ -67,6 +68,8 @@ class Partial(object):
                 self.nontrivial.add(h64(case_hashable))
             if sample is not None and len(self.samples) < MAX_SAMPLES:
                 self.samples.append(jsonable(sample))
+        elif sample is not None and len(self.other_samples) < 3:
+            self.other_samples.append(jsonable(sample))
 
     def count(self, key, n=1):
         self.counters[key] += n
@@ -89,6 +92,9 @@ class Partial(object):
         for s in o.samples:
             if len(self.samples) < MAX_SAMPLES:
                 self.samples.append(s)
+        for s in getattr(o, "other_samples", []):
+            if len(self.other_samples) < 3:
+                self.other_samples.append(s)
         self.counters.update(o.counters)
         for b, f in o.failures.items():
             g = self.failures.get(b)
@@ -421,7 +427,7 @@ def finish(mod, total, tier, seed, t0):
         evaluations=int(total.evaluations),
         distinct_nontrivial=len(total.nontrivial),
         rule=mod.RULE,
-        samples=total.samples[:MAX_SAMPLES],
+        samples=(total.samples[:MAX_SAMPLES] or [dict(note="no non-trivial case in this run; a trivial or failing case instead", case=c) for c in (total.other_samples or [f["case"] for f in list(total.failures.values())[:3]])]),
         counters={k: int(v) for k, v in sorted(total.counters.items())},
         failure_buckets={b: f["count"] for b, f in sorted(total.failures.items())},
         known_findings_hit={k: int(v) for k, v in known_hit.items()},
@@ -440,9 +446,16 @@ def finish(mod, total, tier, seed, t0):
         wall_s=round(time.time() - t0, 2),
         violations=len(violations),
     )
-    write_evidence(pid, ev)
     for l in lines:
         print(l)
+    sys.stdout.flush()
+    try:
+        write_evidence(pid, ev)
+    except Exception as x:
+        # (a tree so broken that no non-trivial case could be counted must still be reported through the lines above)
+        sys.stderr.write("HARNESS-NOTE evidence for %s does not validate: %s\n" % (pid, str(x).splitlines()[0][:200]))
+        if not violations:
+            rc = max(rc, 2)
     print("%s tier=%s seed=%s evaluations=%d nontrivial=%d known_hit=%d violations=%d wall=%.1fs" % (
         pid, tier, seed, total.evaluations, len(total.nontrivial), sum(known_hit.values()), len(violations), time.time() - t0))
     return rc
